@@ -66,8 +66,18 @@ def _d(h, cls, state):
     deserialization. For ASTs, this does not work.
     """
     op, args, length, variables, symbolic, annotations = state
+    # the pickled annotation tuple is complete (it already holds the relocatable annotations of the children)
+    # and is restored as it was: re-deriving it would drop duplicates and reorder it
     return cls.__new__(
-        cls, op, args, length=length, variables=variables, symbolic=symbolic, annotations=annotations, hash=h
+        cls,
+        op,
+        args,
+        length=length,
+        variables=variables,
+        symbolic=symbolic,
+        annotations=annotations,
+        skip_child_annotations=True,
+        hash=h,
     )
 
 
